@@ -500,6 +500,53 @@ pub fn check_constructed(kind: &str, n: usize) -> Vec<Finding> {
     }
 }
 
+/// Buffering writers (std's BufWriter over a growable and over a fixed sink): when a write
+/// call returns Ok the sink itself - looked at without an extra flush by the caller - holds the
+/// message the vector-returning function gives; a sink one byte too small makes the call fail.
+pub fn check_buffered(p: &RefPacket) -> Vec<Finding> {
+    use std::io::BufWriter;
+    let case = json!({"kind": "buffered", "packet": p});
+    let r = guarded(|| -> Result<Vec<(String, String)>, String> {
+        let mut bad = Vec::new();
+        let l = to_lib(p)?;
+        for compressed in [false, true] {
+            let mode = if compressed { "compressed" } else { "plain" };
+            let want = if compressed { l.build_bytes_vec_compressed() } else { l.build_bytes_vec() }.map_err(|e| format!("{:?}", e))?;
+            for cap in [1usize, 7, 64, 8192] {
+                let mut w = BufWriter::with_capacity(cap, Cursor::new(Vec::new()));
+                let res = write_mode(&l, compressed, &mut w);
+                let sink: Vec<u8> = w.get_ref().get_ref().clone();
+                match res {
+                    Err(e) => bad.push((format!("{}|bufwriter|error", mode), format!("BufWriter({}) over a growable cursor: {:?}", cap, e))),
+                    Ok(()) => {
+                        if sink != want {
+                            bad.push((format!("{}|bufwriter|sink-differs-after-ok", mode), format!("BufWriter({}) over a growable cursor: the call returned Ok, the sink holds {} bytes, the message has {} (unflushed tail: {} bytes)", cap, sink.len(), want.len(), w.buffer().len())));
+                        }
+                    }
+                }
+            }
+            if !want.is_empty() {
+                for cap in [1usize, 64, 8192] {
+                    let mut store = vec![0u8; want.len() - 1];
+                    let mut w = BufWriter::with_capacity(cap, Cursor::new(&mut store[..]));
+                    let res = write_mode(&l, compressed, &mut w);
+                    if res.is_ok() {
+                        bad.push((format!("{}|bufwriter|short-sink-ok", mode), format!("BufWriter({}) over a fixed sink of {} bytes: Ok returned for a message of {} bytes", cap, want.len() - 1, want.len())));
+                    }
+                    // the buffer is dropped with whatever it still holds; errors at that point are lost by design of BufWriter
+                    let _ = w.into_parts();
+                }
+            }
+        }
+        Ok(bad)
+    });
+    match r {
+        Err(pn) => vec![finding(format!("C04|buffered|{}", pn.sig()), format!("{:?}", pn), case)],
+        Ok(Err(_)) => vec![],
+        Ok(Ok(bad)) => bad.into_iter().map(|(t, d)| finding(format!("C04|{}", t), d, case.clone())).collect(),
+    }
+}
+
 /// Packets at and just beyond what the 16-bit fields of the wire format can express: a record
 /// whose RDATA has about 65535 bytes (TXT of `n` 255-byte strings: 256 n bytes; an OPT with `n`
 /// options of 252 bytes), a section with `n` entries. Every serialiser either returns an error
@@ -703,6 +750,23 @@ pub fn run(ctx: &Ctx) {
     });
     ctx.space("non-initial states: every packet of the first family parsed from its compressed reference encoding, then one of 8 edits (push question / answer, append to TXT, set / clear OPT, remove, rename), then serialised and decoded strictly", edits.len() as u64, "complete");
     {
+        let firsts: Vec<&RefPacket> = space[..n1].iter().collect();
+        let chunks: Vec<&[&RefPacket]> = firsts.chunks(64).collect();
+        par_shards(ctx, &chunks, |ps, t: &mut Tally| {
+            for p in ps.iter() {
+                t.evals += 1;
+                t.nontrivial += 1;
+                t.transitions += 14;
+                let f = check_buffered(p);
+                t.outcome(if f.is_empty() { "framed" } else { "ill-framed" });
+                if !f.is_empty() {
+                    ctx.violations(f);
+                }
+            }
+        });
+        ctx.space("buffering writers: every packet of the first family through write_to / write_compressed_to into std::io::BufWriter (capacities 1, 7, 64, 8192) over a growable cursor (the sink must hold the whole message when the call returns Ok) and over a fixed sink one byte too small (the call must fail)", n1 as u64, "complete");
+    }
+    {
         let cases = ceiling_cases();
         par_shards(ctx, &cases, |(kind, n), t: &mut Tally| {
             t.evals += 1;
@@ -723,6 +787,12 @@ pub fn run(ctx: &Ctx) {
 }
 
 pub fn replay(case: &Value) -> Vec<Finding> {
+    if case["kind"].as_str() == Some("buffered") {
+        return match serde_json::from_value::<RefPacket>(case["packet"].clone()) {
+            Ok(p) => check_buffered(&p),
+            Err(_) => vec![],
+        };
+    }
     if case["kind"].as_str() == Some("ceiling") {
         return check_ceiling(case["what"].as_str().unwrap_or(""), case["n"].as_u64().unwrap_or(0) as usize);
     }
